@@ -167,7 +167,8 @@ class Gen:
         if r < 0.28 or deep:
             if self.rng.random() < 0.15:
                 return ["u = %s" % self.other()]
-            tgt = self.rng.choice(self.writable() + (["bx.v", "bx.items[0]"] if self.rng.random() < 0.3 else []))
+            # (an index with a side effect: evaluated exactly once also when the subscript is a target)
+            tgt = self.rng.choice(self.writable() + (["bx.v", "bx.items[0]", "bx.items[t(%d, 0)]" % self.tick()] if self.rng.random() < 0.3 else []))
             if self.rng.random() < 0.07:
                 # a destructuring target whose elements evaluate something (attribute / subscript stores inside a target display)
                 t2 = self.rng.choice(["bx.v", "bx.items[0]", "bx.items[(%s) * 0]" % self.atom(), "bx.items[-1]"])
